@@ -4,7 +4,7 @@ from hypothesis import strategies as st
 from .. import build, pbt, tool, probe as probe_mod, findings
 
 RULE = ("Hypothesis-generated method signatures over up to 4 method lifetimes (+ impl lifetimes) with arbitrary declared bounds (incl. cycles), 'static and anonymous "
-        "inputs, parameters &'x self / &'x Op<'y> / Option<&..> / slices / strs / borrowing structs by value or optional (incl. a nested borrowing struct), returns "
+        "inputs, parameters &'x self / &'x Op<'y> / Option<&..> / slices / strs / borrowing structs by value or optional (incl. a nested borrowing struct and a struct whose nested borrowing struct field is a DiplomatOption, present or absent at run time), returns "
         "mentioning 1-3 lifetimes (references, boxes, structs, slices, Option, Result arms); type definitions carry drawn declared and field-implied bounds. "
         "Level 1: Method::borrowing_param_visitor(..).borrow_map() via the public API must equal a reference outlives model (declared U implied bounds, reflexive-"
         "transitive closure): same key set, and per output lifetime exactly the input slots (self, opaque, slice, (struct param, definition slot)) whose lifetime must "
@@ -49,6 +49,8 @@ def universe_items(u, spelled=True):
     d.append("    pub struct St2<%s> {\n%s    }" % (st2_decl, st2_fields))
     outer_decl = "'m, 'n: 'm" if (st2_has and spelled) else "'m, 'n"
     d.append("    pub struct Outer<%s> {\n        pub s: St2<'m, 'n>,\n        pub t: St1<'n>,\n    }" % outer_decl)
+    # an optional nested borrowing struct
+    d.append("    pub struct Wrap<'w> {\n        pub i: DiplomatOption<St1<'w>>,\n        pub k: u8,\n    }")
     return "\n".join(d)
 
 
@@ -58,11 +60,12 @@ def plain_items(u):
          "pub struct OpAB<'x, 'y%s>(PhantomData<(&'x (), &'y ())>);" % (": 'x" if u["opab_bound"] else ""),
          "pub struct St1<'p> { pub o: &'p Op, pub s: &'p str }",
          "pub struct St2<'p, 'q%s> { pub f: &'p Op, pub g: &'q Op%s }" % (": 'p" if u["st2_bound"] == "declared" else "", ", pub h: &'p OpA<'q>" if u["st2_bound"] == "field" else ""),
-         "pub struct Outer<'m, 'n> { pub s: St2<'m, 'n>, pub t: St1<'n> }"]
+         "pub struct Outer<'m, 'n> { pub s: St2<'m, 'n>, pub t: St1<'n> }",
+         "pub struct Wrap<'w> { pub i: Option<St1<'w>>, pub k: u8 }"]
     return "\n".join(p)
 
 
-TYPE_SLOTS = {"OpA": ["x"], "OpAB": ["x", "y"], "St1": ["p"], "St2": ["p", "q"], "Outer": ["m", "n"], "Op": []}
+TYPE_SLOTS = {"OpA": ["x"], "OpAB": ["x", "y"], "St1": ["p"], "St2": ["p", "q"], "Outer": ["m", "n"], "Wrap": ["w"], "Op": []}
 
 
 def def_bounds(u, ty):
@@ -165,7 +168,7 @@ def signature(draw, u):
     params = []
     np_ = draw(st.integers(0, 4))
     for i in range(np_):
-        k = draw(st.sampled_from(["ref0", "refA", "refA", "optrefA", "refAB", "slice", "optslice", "st1", "st2", "st2", "optst2", "outer", "anonref", "anonst"]))
+        k = draw(st.sampled_from(["ref0", "refA", "refA", "optrefA", "refAB", "slice", "optslice", "st1", "st2", "st2", "optst2", "outer", "wrap", "anonref", "anonst"]))
         if k == "ref0":
             t = ["ref", draw(pick_in), "Op", []]
         elif k == "refA":
@@ -186,6 +189,8 @@ def signature(draw, u):
             t = ["optstruct", "St2", args(2)]
         elif k == "outer":
             t = ["struct", "Outer", args(2)]
+        elif k == "wrap":
+            t = ["struct", "Wrap", args(1)]
         elif k == "anonref":
             t = draw(st.sampled_from([["ref", None, "Op", []], ["slice", None, "[u8]"], ["slice", None, "str"]]))
         else:
@@ -607,6 +612,8 @@ def struct_opaque_paths(u, name, slot):
         return (["f"] if slot == "p" else ["g"]) + h
     if name == "Outer":
         return ["s." + x for x in struct_opaque_paths(u, "St2", "p" if slot == "m" else "q")] + (["t.o"] if slot == "n" else [])
+    if name == "Wrap":
+        return ["i.o"]      # (only when the optional field is present: see js_value)
     raise ValueError(name)
 
 
@@ -624,6 +631,10 @@ def js_value(u, label, t):
             f = {"f": js_value(u, label + ".f", ["ref", None, "Op", []]), "g": js_value(u, label + ".g", ["ref", None, "Op", []])}
             if u["st2_bound"] == "field":
                 f["h"] = js_value(u, label + ".h", ["ref", None, "OpA", [None]])
+        elif name == "Wrap":
+            # the optional nested struct is absent for every other parameter
+            absent = label[-1:] in "02468"
+            f = {"i": {"k": "none"} if absent else js_value(u, label + ".i", ["struct", "St1", [None]]), "k": {"k": "slice", "v": 7}}
         else:
             f = {"s": js_value(u, label + ".s", ["struct", "St2", [None, None]]), "t": js_value(u, label + ".t", ["struct", "St1", [None]])}
         return {"k": "struct", "ty": name, "fields": f}
@@ -644,6 +655,8 @@ def js_runtime_spec(u, sigs):
                     want.add(n)
                 elif kind == "struct":
                     t = dict((a, b) for a, b in s["params"])[n]
+                    if t[1] == "Wrap" and n[-1:] in "02468":
+                        continue        # absent optional field: nothing to keep alive, but the call must not throw
                     want.update(n + "." + p_ for p_ in struct_opaque_paths(u, t[1], slot))
         slf = {"k": "opaque", "ty": s["self_ty"], "label": "self"} if s["self"] else None
         methods.append({"cls": s["self_ty"], "name": "m%d" % i, "self": slf, "args": [js_value(u, n, t) for n, t in s["params"]]})
